@@ -317,6 +317,35 @@ pub fn text_cases(m: &Model, shredder: bool) -> Vec<Option<TextCase>> {
     push("K.multibyte", Some(with(2, "é")), v("InvalidCastlingRights"));
     push("K.digit", Some(with(2, "1")), v("InvalidCastlingRights"));
     push("K.unsupported-right", damage_castling(m, shredder).map(|d| d.to_fen(shredder)), v("InvalidCastlingRights"));
+    // a second, different file on the same wing as an existing right (before and after it)
+    {
+        let mut before = None;
+        let mut after = None;
+        if shredder && f[2] != "-" {
+            'find: for (i, ch) in f[2].char_indices() {
+                let c = if ch.is_ascii_uppercase() { WHITE } else { BLACK };
+                if let Some(k) = m.king_sq(c) {
+                    let file = ch.to_ascii_lowercase() as u8 - b'a';
+                    let short = (file as i8) > file_of(k);
+                    for g in 0..8u8 {
+                        let same_wing = if short { (g as i8) > file_of(k) } else { (g as i8) < file_of(k) };
+                        if g != file && same_wing {
+                            let letter = if c == WHITE { (b'A' + g) as char } else { (b'a' + g) as char };
+                            let mut a = f[2].clone();
+                            a.insert(i, letter);
+                            let mut b = f[2].clone();
+                            b.insert(i + 1, letter);
+                            before = Some(with(2, &a));
+                            after = Some(with(2, &b));
+                            break 'find;
+                        }
+                    }
+                }
+            }
+        }
+        push("K.second-file-same-wing-before", before, v("InvalidCastlingRights"));
+        push("K.second-file-same-wing-after", after, v("InvalidCastlingRights"));
+    }
     push("K.empty", Some(with(2, "")), Expect::Reject);
     // a Shredder file letter offered to the plain entry point
     {
@@ -342,6 +371,10 @@ pub fn text_cases(m: &Model, shredder: bool) -> Vec<Option<TextCase>> {
         ("E.other-sides-rank", format!("e{}", other)),
         ("E.digits", "33".to_string()),
         ("E.dash-dash", "--".to_string()),
+        ("E.one-two-byte-char", "é".to_string()),
+        ("E.one-three-byte-char", "€".to_string()),
+        ("E.two-byte-char-then-rank", format!("ß{}", eprank)),
+        ("E.file-then-two-byte-char", "eß".to_string()),
     ] {
         push(name, Some(with(3, &val)), v("InvalidEnPassant"));
     }
@@ -366,6 +399,7 @@ pub fn text_cases(m: &Model, shredder: bool) -> Vec<Option<TextCase>> {
         ("H.256", "256"),
         ("H.20-digits", "99999999999999999999"),
         ("H.dash", "-"),
+        ("H.two-byte-char", "é"),
     ] {
         push(name, Some(with(4, val)), v("InvalidHalfMoveClock"));
     }
@@ -380,6 +414,7 @@ pub fn text_cases(m: &Model, shredder: bool) -> Vec<Option<TextCase>> {
         ("N.11-digits", "99999999999"),
         ("N.decimal", "1.0"),
         ("N.dash", "-"),
+        ("N.two-byte-char", "é"),
     ] {
         push(name, Some(with(5, val)), v("InvalidFullmoveNumber"));
     }
